@@ -13,7 +13,7 @@ for d in sorted(glob.glob(os.path.join(ROOT, "seeded", "*"))):
     checks = sorted(set([m["breaks"]] + list(m.get("detection", {}).keys())))
     src = "/tmp/seedsrc-" + name
     subprocess.run("rm -rf %s && cp -r %s %s" % (src, d, src), shell=True)
-    p = subprocess.run(["python3", os.path.join(ROOT, "tools", "seed_eval.py"), name, src, m["breaks"]] + [c for c in checks if c != m["breaks"]],
+    p = subprocess.run(["python3", os.path.join(ROOT, "tools", "seed_eval.py"), name, src, m["breaks"]] + checks,
                        text=True, stdout=subprocess.PIPE, stderr=subprocess.STDOUT)
     tail = [l for l in p.stdout.splitlines() if l.startswith("validation") or l.startswith("detected_by") or "NOT KEPT" in l]
     print(name, "|", " ".join(tail)[:400], flush=True)
